@@ -163,6 +163,9 @@ func runC16(c *Ctx) {
 	}
 	// ---- R3: structural clauses of the second half (who counts as a producer; which selectors are probed; cache lifetime) ----
 	c.Rule("C16-R3", "producer lookups are kind-aware; per-source fallback exemption; cached answers expire as stored", 5)
+	defer c16SelectorCopy(c)
+	defer c16FallbackScope(c)
+	defer c16MatcherOnOwnLabel(c)
 	// (a) pointers to a providing entry are set only under a kind-specific, error-free, name-equality guard
 	pmC := parentMap(chk.Decl.Body)
 	nProd := 0
@@ -321,4 +324,158 @@ func cacheExpiryWriters(c *Ctx, rule string) {
 		})
 	}
 	c.Check(n >= 1, rule, "cacheEntry.expiresAt writers enumerated", 0, itoa(n)+" store(s)", "no store to cacheEntry.expiresAt found")
+}
+
+// c16SelectorCopy: the selector pint probes for is the rule's selector minus
+// its offset — nothing else. selectorWithoutOffset returns a whole-struct copy
+// of its argument and then resets only Offset / OriginalOffset; a literal that
+// lists fields by hand must carry every exported field of the vendored
+// VectorSelector except those two (and the evaluator's scratch fields), or
+// modifiers such as `@ <ts>` are silently dropped from the probe.
+func c16SelectorCopy(c *Ctx) {
+	p := c.P
+	fi := c.MustFunc("C16-R1", "internal/checks.selectorWithoutOffset")
+	if fi == nil {
+		return
+	}
+	info := fi.Pkg.TypesInfo
+	param := paramObj(fi, 0)
+	resetOK := map[string]bool{"Offset": true, "OriginalOffset": true}
+	scratch := map[string]bool{"Series": true, "UnexpandedSeriesSet": true}
+	wholeCopy := false
+	var copyObj types.Object
+	badStore := ""
+	ast.Inspect(fi.Decl.Body, func(n ast.Node) bool {
+		as, ok := n.(*ast.AssignStmt)
+		if !ok || len(as.Lhs) != 1 || len(as.Rhs) != 1 {
+			return true
+		}
+		// *s = *vs   or   s := *vs
+		if r, ok := ast.Unparen(as.Rhs[0]).(*ast.StarExpr); ok && isObj(info, r.X, param) {
+			wholeCopy = true
+			switch l := ast.Unparen(as.Lhs[0]).(type) {
+			case *ast.StarExpr:
+				copyObj = objOf(info, l.X)
+			case *ast.Ident:
+				copyObj = objOf(info, l)
+			}
+		}
+		if sel, ok := as.Lhs[0].(*ast.SelectorExpr); ok && typeQName(info.TypeOf(sel.X)) == promParserPath+".VectorSelector" {
+			if !resetOK[sel.Sel.Name] {
+				badStore = sel.Sel.Name
+			}
+		}
+		return true
+	})
+	missing := ""
+	lits := compositeLits(info, fi.Decl.Body, promParserPath+".VectorSelector")
+	for _, cl := range lits {
+		if len(cl.Elts) == 0 {
+			continue // the empty literal that receives the whole-struct copy
+		}
+		tn := p.LookupType(promParserPath, "VectorSelector")
+		if tn == nil {
+			continue
+		}
+		st := tn.Type().Underlying().(*types.Struct)
+		for i := 0; i < st.NumFields(); i++ {
+			f := st.Field(i)
+			if !f.Exported() || resetOK[f.Name()] || scratch[f.Name()] {
+				continue
+			}
+			if litField(cl, f.Name()) == nil {
+				missing += f.Name() + " "
+			}
+		}
+		wholeCopy = wholeCopy || missing == ""
+	}
+	_ = copyObj
+	c.Check(wholeCopy && badStore == "" && missing == "", "C16-R1", "selectorWithoutOffset:copies the whole selector and resets only the offset", fi.Decl.Pos(), "whole-struct copy, Offset/OriginalOffset reset",
+		"the selector used for the presence probe is not the rule's selector minus its offset (fields dropped: "+strings.TrimSpace(missing)+"; other field written: "+badStore+"): e.g. `foo @ <ts> offset 5m` is probed as plain `foo`, so the verdict disagrees with what the server holds at that timestamp")
+}
+
+// c16FallbackScope: whether a result branch's own selector is exempt from the
+// probe is decided by the result branches themselves (is one of them a
+// guaranteed fallback such as `or vector(1)`); a fallback that only exists on
+// the joined / unless side of a branch says nothing about the branch's selector.
+func c16FallbackScope(c *Ctx) {
+	fi := c.MustFunc("C16-R3", "internal/checks.sourceHasFallback")
+	if fi == nil {
+		return
+	}
+	info := fi.Pkg.TypesInfo
+	bad := ""
+	ast.Inspect(fi.Decl.Body, func(n ast.Node) bool {
+		switch x := n.(type) {
+		case *ast.SelectorExpr:
+			if fieldSel(info, x, "internal/parser/utils.Source", "Joins") || fieldSel(info, x, "internal/parser/utils.Source", "Unless") {
+				bad = x.Sel.Name
+			}
+		case *ast.CallExpr:
+			if isCallTo(info, x, "internal/parser/utils.Source.WalkSources") {
+				bad = "WalkSources"
+			}
+		}
+		return true
+	})
+	c.Check(bad == "", "C16-R3", "sourceHasFallback:looks at the result branches only", fi.Decl.Pos(), "no descent into joins / unless",
+		"the main-selector exemption descends into nested sources ("+bad+"): a fallback on the join side (`m * on() group_left() (w or vector(1))`) exempts `m` itself from the probe, so a never-present `m` is not reported")
+}
+
+// c16MatcherOnOwnLabel: a label matcher is applied to the value of the label it
+// names. Every `m.Matches(l.Value)` on a labels.Label l in internal/checks is
+// conjoined with `m.Name == l.Name`.
+func c16MatcherOnOwnLabel(c *Ctx) {
+	p := c.P
+	n := 0
+	for _, fi := range p.AllFuncs() {
+		if fi.Decl.Body == nil || p.IsTestFile(fi.Decl.Pos()) || relPkg(fi.Pkg.PkgPath) != "internal/checks" {
+			continue
+		}
+		info := fi.Pkg.TypesInfo
+		pm := parentMap(fi.Decl.Body)
+		ast.Inspect(fi.Decl.Body, func(nd ast.Node) bool {
+			call, ok := nd.(*ast.CallExpr)
+			if !ok || len(call.Args) != 1 {
+				return true
+			}
+			sel, ok := call.Fun.(*ast.SelectorExpr)
+			if !ok || sel.Sel.Name != "Matches" || !strings.HasSuffix(typeQName(info.TypeOf(sel.X)), "model/labels.Matcher") {
+				return true
+			}
+			arg, ok := ast.Unparen(call.Args[0]).(*ast.SelectorExpr)
+			if !ok || arg.Sel.Name != "Value" || !strings.HasSuffix(typeQName(info.TypeOf(arg.X)), "model/labels.Label") {
+				return true
+			}
+			n++
+			// facts known at the call: enclosing ifs + short-circuit operands on the way
+			atoms := lexicalGuards(pm, call, fi.Decl.Body)
+			for cur := pm[ast.Node(call)]; cur != nil; cur = pm[cur] {
+				if _, isStmt := cur.(ast.Stmt); isStmt {
+					break
+				}
+				if be, ok := cur.(*ast.BinaryExpr); ok && (be.Op == token.LAND || be.Op == token.LOR) {
+					atoms = append(atoms, WithinExprAtoms(be, call)...)
+				}
+			}
+			named := false
+			for _, a := range atoms {
+				be, ok := ast.Unparen(a.E).(*ast.BinaryExpr)
+				if !ok || !a.Truth || be.Op != token.EQL {
+					continue
+				}
+				isName := func(e ast.Expr, of ast.Expr) bool {
+					s, ok := ast.Unparen(e).(*ast.SelectorExpr)
+					return ok && s.Sel.Name == "Name" && sameExpr(info, s.X, of)
+				}
+				if (isName(be.X, sel.X) && isName(be.Y, arg.X)) || (isName(be.Y, sel.X) && isName(be.X, arg.X)) {
+					named = true
+				}
+			}
+			c.Check(named, "C16-R3", fi.Name+":matcher applied to the label it names #"+itoa(n), call.Pos(), "guarded by m.Name == l.Name",
+				"`"+roleStr(info, call)+"` tests a matcher against the value of a label without requiring the label to be the one the matcher names: a series that happens to carry the value on another label counts as matching (a configured matcher on job=pushgateway is satisfied by instance=pushgateway)")
+			return true
+		})
+	}
+	c.Check(n >= 1, "C16-R3", "matcher applications on label values enumerated", token.NoPos, itoa(n), "none found")
 }
